@@ -315,7 +315,7 @@ func (s *shadow) scenario(k int) {
 func (engine) Generate(rng *rand.Rand, tier string) []core.Case {
 	nRandom, nScen := 150, 90
 	if tier == "thorough" {
-		nRandom, nScen = 1200, 600
+		nRandom, nScen = 600, 300
 	}
 	var cases []core.Case
 	for i := 0; i < nScen; i++ {
